@@ -45,14 +45,14 @@ fn ibig_w(c: usize, neg: bool, w: &[Word; 3]) -> IBig {
 #[derive(Clone, Copy)]
 struct Obs {
     neg: bool,
-    w: [Word; 5],
+    w: [Word; 6],
     len: usize,
 }
 fn obs_words(neg: bool, s: &[Word]) -> Obs {
-    let mut r = Obs { neg, w: [0; 5], len: s.len() };
-    assert!(s.len() <= 5);
+    let mut r = Obs { neg, w: [0; 6], len: s.len() };
+    assert!(s.len() <= 6);
     let mut i = 0;
-    while i < 5 {
+    while i < 6 {
         if i < s.len() {
             r.w[i] = s[i];
         }
@@ -76,6 +76,7 @@ fn same(a: Obs, b: Obs) -> bool {
         && a.w[2] == b.w[2]
         && a.w[3] == b.w[3]
         && a.w[4] == b.w[4]
+        && a.w[5] == b.w[5]
 }
 
 /// Observe a result and forget it: results are not dropped (memory management is C17's business, groups
@@ -174,48 +175,6 @@ fn cls(c: usize, w: [Word; 3]) -> [Word; 3] {
     [w[0], if c >= 2 { w[1] } else { 0 }, if c >= 3 { w[2] } else { 0 }]
 }
 
-/// Sign dispatch for IBig operands: inline classes get a CONCRETE sign (one call per sign), heap classes a
-/// symbolic one (|capacity| of an inline value with symbolic sign is not a constant for CBMC).
-macro_rules! with_signs {
-    ($f:ident, $ca:expr, $cb:expr) => {{
-        let (na, nb): (bool, bool) = (any(), any());
-        if $ca <= 2 && $cb <= 2 {
-            match (na, nb) {
-                (false, false) => $f($ca, false, $cb, false),
-                (false, true) => $f($ca, false, $cb, true),
-                (true, false) => $f($ca, true, $cb, false),
-                (true, true) => $f($ca, true, $cb, true),
-            }
-        } else if $ca <= 2 {
-            if na {
-                $f($ca, true, $cb, nb)
-            } else {
-                $f($ca, false, $cb, nb)
-            }
-        } else if $cb <= 2 {
-            if nb {
-                $f($ca, na, $cb, true)
-            } else {
-                $f($ca, na, $cb, false)
-            }
-        } else {
-            $f($ca, na, $cb, nb)
-        }
-    }};
-}
-macro_rules! with_sign {
-    ($f:ident, $ca:expr) => {{
-        let na: bool = any();
-        if $ca > 2 {
-            $f($ca, na)
-        } else if na {
-            $f($ca, true)
-        } else {
-            $f($ca, false)
-        }
-    }};
-}
-
 // ================================================================ UBig: + - & | ^ (full-width words)
 macro_rules! ubig_binop {
     ($op:tt, $opa:tt; $($name:ident = ($ca:expr, $cb:expr, $which:ident)),* $(,)?) => {$(
@@ -311,22 +270,37 @@ harness_panics!(vk_int_forms_ubig_sub_prim_below_zero_panics, 8, {
 });
 
 // ================================================================ UBig: << >> (shift < 130)
+// The shift amount is one of {0, 1, 63, 64, 65, 129}, selected symbolically but passed as a literal (the result
+// length, hence the allocation size, depends on it; a fully symbolic amount does not finish).
+macro_rules! shift_amounts {
+    ($f:ident, $ca:expr) => {{
+        match any::<u8>() {
+            0 => $f($ca, 0),
+            1 => $f($ca, 1),
+            2 => $f($ca, 63),
+            3 => $f($ca, 64),
+            4 => $f($ca, 65),
+            _ => $f($ca, 129),
+        }
+    }};
+}
 macro_rules! ubig_shift {
     ($op:tt, $opa:tt; $($name:ident = $ca:expr),* $(,)?) => {$(
         harness!($name, 8, {
-            let wa = full3();
-            let n: usize = any();
-            assume(n < 130);
-            let r = ob!(obs_u, &ubig_w($ca, &wa) $op n);
-            assert!(same(ob!(obs_u, ubig_w($ca, &wa) $op n), r));
-            assert!(same(ob!(obs_u, ubig_w($ca, &wa) $op &n), r));
-            assert!(same(ob!(obs_u, &ubig_w($ca, &wa) $op &n), r));
-            let mut x = ubig_w($ca, &wa);
-            x $opa n;
-            assert!(same(ob!(obs_u, x), r));
-            let mut y = ubig_w($ca, &wa);
-            y $opa &n;
-            assert!(same(ob!(obs_u, y), r));
+            fn body(ca: usize, n: usize) {
+                let wa = full3();
+                let r = ob!(obs_u, &ubig_w(ca, &wa) $op n);
+                assert!(same(ob!(obs_u, ubig_w(ca, &wa) $op n), r));
+                assert!(same(ob!(obs_u, ubig_w(ca, &wa) $op &n), r));
+                assert!(same(ob!(obs_u, &ubig_w(ca, &wa) $op &n), r));
+                let mut x = ubig_w(ca, &wa);
+                x $opa n;
+                assert!(same(ob!(obs_u, x), r));
+                let mut y = ubig_w(ca, &wa);
+                y $opa &n;
+                assert!(same(ob!(obs_u, y), r));
+            }
+            shift_amounts!(body, $ca);
         });
     )*};
 }
@@ -356,12 +330,12 @@ macro_rules! ubig_div {
     )*};
 }
 ubig_div!(/, /=; vk_int_forms_ubig_div_2_1 = (2, 1, forms_all), vk_int_forms_ubig_div_2_2_val = (2, 2, fv),
-    vk_int_forms_ubig_div_2_2_assign = (2, 2, forms_assign), vk_int_forms_ubig_div_3_1 = (3, 1, forms_all),
-    vk_int_forms_ubig_div_3_2 = (3, 2, forms_all), vk_int_forms_ubig_div_3_3 = (3, 3, forms_all));
+    vk_int_forms_ubig_div_2_2_assign = (2, 2, forms_assign), vk_int_forms_ubig_div_3_1 = (3, 1, forms_all));
 ubig_div!(%, %=; vk_int_forms_ubig_rem_2_1 = (2, 1, forms_all), vk_int_forms_ubig_rem_2_2_val = (2, 2, fv),
-    vk_int_forms_ubig_rem_2_2_assign = (2, 2, forms_assign), vk_int_forms_ubig_rem_3_1 = (3, 1, forms_all),
-    vk_int_forms_ubig_rem_3_2 = (3, 2, forms_all), vk_int_forms_ubig_rem_3_3 = (3, 3, forms_all));
+    vk_int_forms_ubig_rem_2_2_assign = (2, 2, forms_assign), vk_int_forms_ubig_rem_3_1 = (3, 1, forms_all), vk_int_forms_ubig_rem_3_3 = (3, 3, forms_all));
 
+// (3-word / 2- or 3-word operands, i.e. the Knuth division path, do not finish even with palette words: only
+// rem_3_3 is kept, in the thorough tier)
 // div_rem in every form == (/, %); div_rem_assign leaves the quotient and returns the remainder
 macro_rules! ubig_div_rem {
     ($($name:ident = ($ca:expr, $cb:expr)),* $(,)?) => {$(
@@ -392,8 +366,7 @@ macro_rules! ubig_div_rem {
         });
     )*};
 }
-ubig_div_rem!(vk_int_forms_ubig_div_rem_2_1 = (2, 1), vk_int_forms_ubig_div_rem_2_2 = (2, 2),
-    vk_int_forms_ubig_div_rem_3_2 = (3, 2), vk_int_forms_ubig_div_rem_3_3 = (3, 3));
+ubig_div_rem!(vk_int_forms_ubig_div_rem_2_1 = (2, 1), vk_int_forms_ubig_div_rem_2_2 = (2, 2));
 
 // division by zero: EVERY form of / % div_rem panics
 harness_panics!(vk_int_forms_ubig_div_zero_panics, 8, {
@@ -466,16 +439,22 @@ macro_rules! ubig_prim {
             let pre: fn(&[Word; 3], $t) -> bool = $pre;
             assume(pre(&cls($ca, wa), p));
             let r = ob!(obs_u, &ubig_w($ca, &wa) $op &UBig::from(p));
-            assert!(same(ob!(obs_u, ubig_w($ca, &wa) $op p), r));
-            assert!(same(ob!(obs_u, &ubig_w($ca, &wa) $op p), r));
-            assert!(same(ob!(obs_u, ubig_w($ca, &wa) $op &p), r));
-            assert!(same(ob!(obs_u, &ubig_w($ca, &wa) $op &p), r));
-            let mut x = ubig_w($ca, &wa);
-            x $opa p;
-            assert!(same(ob!(obs_u, x), r));
-            let mut y = ubig_w($ca, &wa);
-            y $opa &p;
-            assert!(same(ob!(obs_u, y), r));
+            match any::<u8>() {
+                0 => assert!(same(ob!(obs_u, ubig_w($ca, &wa) $op p), r)),
+                1 => assert!(same(ob!(obs_u, &ubig_w($ca, &wa) $op p), r)),
+                2 => assert!(same(ob!(obs_u, ubig_w($ca, &wa) $op &p), r)),
+                3 => assert!(same(ob!(obs_u, &ubig_w($ca, &wa) $op &p), r)),
+                4 => {
+                    let mut x = ubig_w($ca, &wa);
+                    x $opa p;
+                    assert!(same(ob!(obs_u, x), r));
+                }
+                _ => {
+                    let mut y = ubig_w($ca, &wa);
+                    y $opa &p;
+                    assert!(same(ob!(obs_u, y), r));
+                }
+            }
         });
     )*};
 }
@@ -487,188 +466,240 @@ ubig_prim!(u64, *, *=, pal3, |_, _| true; vk_int_forms_ubig_mul_u64_2 = 2);
 ubig_prim!(u8, /, /=, pal3, |_, p| p != 0; vk_int_forms_ubig_div_u8_2 = 2, vk_int_forms_ubig_div_u8_3 = 3);
 ubig_prim!(u8, |, |=, full3, |_, _| true; vk_int_forms_ubig_or_u8_2 = 2);
 
-// commuted primitive forms (primitive on the left) and the forms that return a primitive (% and &)
+// commuted primitive forms (primitive on the left)
 harness!(vk_int_forms_ubig_prim_left_2, 8, {
     let wa = full3();
     let p: u8 = any();
-    let r = ob!(obs_u, &UBig::from(p) + &ubig_w(2, &wa));
-    assert!(same(ob!(obs_u, p + ubig_w(2, &wa)), r));
-    assert!(same(ob!(obs_u, p + &ubig_w(2, &wa)), r));
-    assert!(same(ob!(obs_u, &p + ubig_w(2, &wa)), r));
-    assert!(same(ob!(obs_u, &p + &ubig_w(2, &wa)), r));
-    let x = ob!(obs_u, &UBig::from(p) ^ &ubig_w(2, &wa));
-    assert!(same(ob!(obs_u, p ^ ubig_w(2, &wa)), x));
-    assert!(same(ob!(obs_u, &p ^ &ubig_w(2, &wa)), x));
+    if any::<bool>() {
+        let r = ob!(obs_u, &UBig::from(p) + &ubig_w(2, &wa));
+        match any::<u8>() {
+            0 => assert!(same(ob!(obs_u, p + ubig_w(2, &wa)), r)),
+            1 => assert!(same(ob!(obs_u, p + &ubig_w(2, &wa)), r)),
+            2 => assert!(same(ob!(obs_u, &p + ubig_w(2, &wa)), r)),
+            _ => assert!(same(ob!(obs_u, &p + &ubig_w(2, &wa)), r)),
+        }
+    } else {
+        let x = ob!(obs_u, &UBig::from(p) ^ &ubig_w(2, &wa));
+        if any::<bool>() {
+            assert!(same(ob!(obs_u, p ^ ubig_w(2, &wa)), x));
+        } else {
+            assert!(same(ob!(obs_u, &p ^ &ubig_w(2, &wa)), x));
+        }
+    }
 });
+// the forms that return a primitive: %, div_rem, div_rem_assign, & (palette dividend, any non-zero u8)
 macro_rules! ubig_rem_prim {
     ($($name:ident = $ca:expr),* $(,)?) => {$(
         harness!($name, 8, {
             let wa = pal3();
             let p: u8 = any();
             assume(p != 0);
-            let r = ob!(obs_u, &ubig_w($ca, &wa) % &UBig::from(p));
-            let q = ob!(obs_u, &ubig_w($ca, &wa) / &UBig::from(p));
             let r1: u8 = ubig_w($ca, &wa) % p;
-            let r2: u8 = &ubig_w($ca, &wa) % p;
-            let r3: u8 = &ubig_w($ca, &wa) % &p;
-            assert!(r1 == r2 && r2 == r3);
-            assert!(same(ob!(obs_u, UBig::from(r1)), r));
-            let (q4, r4) = ubig_w($ca, &wa).div_rem(p);
-            assert!(r4 == r1 && same(ob!(obs_u, q4), q));
-            let (q5, r5) = (&ubig_w($ca, &wa)).div_rem(&p);
-            assert!(r5 == r1 && same(ob!(obs_u, q5), q));
-            let mut x = ubig_w($ca, &wa);
-            let r6: u8 = x.div_rem_assign(p);
-            assert!(r6 == r1 && same(ob!(obs_u, x), q));
-            // & with a primitive returns the primitive
-            let m = ob!(obs_u, &ubig_w($ca, &wa) & &UBig::from(p));
-            let m1: u8 = ubig_w($ca, &wa) & p;
-            let m2: u8 = p & &ubig_w($ca, &wa);
-            assert!(m1 == m2 && same(ob!(obs_u, UBig::from(m1)), m));
+            match any::<u8>() {
+                0 => {
+                    let r = ob!(obs_u, &ubig_w($ca, &wa) % &UBig::from(p));
+                    assert!(same(ob!(obs_u, UBig::from(r1)), r));
+                }
+                1 => {
+                    let r2: u8 = &ubig_w($ca, &wa) % p;
+                    let r3: u8 = &ubig_w($ca, &wa) % &p;
+                    assert!(r1 == r2 && r2 == r3);
+                }
+                2 => {
+                    let q = ob!(obs_u, &ubig_w($ca, &wa) / &UBig::from(p));
+                    let (q4, r4) = ubig_w($ca, &wa).div_rem(p);
+                    assert!(r4 == r1 && same(ob!(obs_u, q4), q));
+                }
+                3 => {
+                    let (q4, r4) = ubig_w($ca, &wa).div_rem(p);
+                    let (q5, r5) = (&ubig_w($ca, &wa)).div_rem(&p);
+                    assert!(r5 == r4 && same(ob!(obs_u, q5), ob!(obs_u, q4)));
+                }
+                _ => {
+                    let (q4, r4) = ubig_w($ca, &wa).div_rem(p);
+                    let mut x = ubig_w($ca, &wa);
+                    let r6: u8 = x.div_rem_assign(p);
+                    assert!(r6 == r4 && same(ob!(obs_u, x), ob!(obs_u, q4)));
+                }
+            }
         });
     )*};
 }
 ubig_rem_prim!(vk_int_forms_ubig_rem_u8_2 = 2, vk_int_forms_ubig_rem_u8_3 = 3);
+// & with a primitive returns the primitive
+harness!(vk_int_forms_ubig_and_u8_2, 8, {
+    let wa = full3();
+    let p: u8 = any();
+    let m = ob!(obs_u, &ubig_w(2, &wa) & &UBig::from(p));
+    let m1: u8 = ubig_w(2, &wa) & p;
+    let m2: u8 = p & &ubig_w(2, &wa);
+    assert!(m1 == m2 && same(ob!(obs_u, UBig::from(m1)), m));
+});
 
 // ================================================================ IBig
+// Signs are CONCRETE per harness instance (suffix p = non-negative, n = negative): |capacity| of an inline value
+// with symbolic sign is not a constant for CBMC, and a symbolic pair of signs multiplies the work by four.
 macro_rules! ibig_binop {
-    ($op:tt, $opa:tt, $words:ident, $pre:expr; $($name:ident = ($ca:expr, $cb:expr, $which:ident)),* $(,)?) => {$(
+    ($op:tt, $opa:tt, $words:ident, $pre:expr; $($name:ident = ($ca:expr, $na:expr, $cb:expr, $nb:expr, $which:ident)),* $(,)?) => {$(
         harness!($name, 8, {
-            fn body(ca: usize, na: bool, cb: usize, nb: bool) {
-                let (wa, wb) = ($words(), $words());
-                let pre: fn(usize, &[Word; 3]) -> bool = $pre;
-                assume(pre(cb, &wb));
-                $which!(obs_i, ibig_w(ca, na, &wa), ibig_w(cb, nb, &wb), $op, $opa);
-            }
-            with_signs!(body, $ca, $cb);
+            let (wa, wb) = ($words(), $words());
+            let pre: fn(usize, &[Word; 3]) -> bool = $pre;
+            assume(pre($cb, &wb));
+            assume(!($na && $ca == 1 && wa[0] == 0) && !($nb && $cb == 1 && wb[0] == 0));
+            $which!(obs_i, ibig_w($ca, $na, &wa), ibig_w($cb, $nb, &wb), $op, $opa);
         });
     )*};
 }
-ibig_binop!(+, +=, full3, |_, _| true; vk_int_forms_ibig_add_1_1 = (1, 1, forms_all), vk_int_forms_ibig_add_2_2_val = (2, 2, fv),
-    vk_int_forms_ibig_add_3_2 = (3, 2, forms_all), vk_int_forms_ibig_add_3_3 = (3, 3, forms_all));
-ibig_binop!(-, -=, full3, |_, _| true; vk_int_forms_ibig_sub_1_1 = (1, 1, forms_all), vk_int_forms_ibig_sub_2_2_val = (2, 2, fv),
-    vk_int_forms_ibig_sub_2_3 = (2, 3, forms_all), vk_int_forms_ibig_sub_3_3 = (3, 3, forms_all));
-ibig_binop!(&, &=, full3, |_, _| true; vk_int_forms_ibig_and_1_1 = (1, 1, forms_all), vk_int_forms_ibig_and_3_3 = (3, 3, forms_all));
-ibig_binop!(|, |=, full3, |_, _| true; vk_int_forms_ibig_or_1_1 = (1, 1, forms_all), vk_int_forms_ibig_or_3_3 = (3, 3, forms_all));
-ibig_binop!(^, ^=, full3, |_, _| true; vk_int_forms_ibig_xor_1_1 = (1, 1, forms_all), vk_int_forms_ibig_xor_3_3 = (3, 3, forms_all));
-ibig_binop!(*, *=, pal3, |_, _| true; vk_int_forms_ibig_mul_1_1 = (1, 1, forms_all), vk_int_forms_ibig_mul_3_2 = (3, 2, forms_all));
-ibig_binop!(/, /=, pal3, |c, w| c > 1 || w[0] != 0; vk_int_forms_ibig_div_2_1 = (2, 1, forms_all),
-    vk_int_forms_ibig_div_3_2 = (3, 2, forms_all));
-ibig_binop!(%, %=, pal3, |c, w| c > 1 || w[0] != 0; vk_int_forms_ibig_rem_2_1 = (2, 1, forms_all),
-    vk_int_forms_ibig_rem_3_2 = (3, 2, forms_all));
+ibig_binop!(+, +=, full3, |_, _| true;
+    vk_int_forms_ibig_add_1p_1n = (1, false, 1, true, forms_all), vk_int_forms_ibig_add_1n_1n = (1, true, 1, true, fv),
+    vk_int_forms_ibig_add_2n_2p = (2, true, 2, false, fv), vk_int_forms_ibig_add_3n_2p = (3, true, 2, false, forms_all),
+    vk_int_forms_ibig_add_3p_3n = (3, false, 3, true, forms_all), vk_int_forms_ibig_add_3n_3n = (3, true, 3, true, fv));
+ibig_binop!(-, -=, full3, |_, _| true;
+    vk_int_forms_ibig_sub_1p_1p = (1, false, 1, false, forms_all), vk_int_forms_ibig_sub_1n_1p = (1, true, 1, false, fv),
+    vk_int_forms_ibig_sub_2n_2n = (2, true, 2, true, fv), vk_int_forms_ibig_sub_2p_3p = (2, false, 3, false, forms_all),
+    vk_int_forms_ibig_sub_3n_3n = (3, true, 3, true, forms_all));
+ibig_binop!(&, &=, full3, |_, _| true;
+    vk_int_forms_ibig_and_1n_1p = (1, true, 1, false, forms_all), vk_int_forms_ibig_and_1n_1n = (1, true, 1, true, fv),
+    vk_int_forms_ibig_and_3n_3n = (3, true, 3, true, forms_all), vk_int_forms_ibig_and_3p_2n = (3, false, 2, true, fv));
+ibig_binop!(|, |=, full3, |_, _| true;
+    vk_int_forms_ibig_or_1n_1p = (1, true, 1, false, forms_all), vk_int_forms_ibig_or_3n_3p = (3, true, 3, false, forms_all));
+ibig_binop!(^, ^=, full3, |_, _| true;
+    vk_int_forms_ibig_xor_1n_1n = (1, true, 1, true, forms_all), vk_int_forms_ibig_xor_3p_3n = (3, false, 3, true, forms_all));
+ibig_binop!(*, *=, pal3, |_, _| true;
+    vk_int_forms_ibig_mul_1n_1p = (1, true, 1, false, forms_all), vk_int_forms_ibig_mul_2n_2n = (2, true, 2, true, fv));
+ibig_binop!(/, /=, pal3, |c, w| c > 1 || w[0] != 0;
+    vk_int_forms_ibig_div_2n_1p = (2, true, 1, false, forms_all), vk_int_forms_ibig_div_2p_2n = (2, false, 2, true, fv),
+    vk_int_forms_ibig_div_3n_1n = (3, true, 1, true, fv));
+ibig_binop!(%, %=, pal3, |c, w| c > 1 || w[0] != 0;
+    vk_int_forms_ibig_rem_2n_1p = (2, true, 1, false, forms_all), vk_int_forms_ibig_rem_2n_2n = (2, true, 2, true, fv),
+    vk_int_forms_ibig_rem_3n_1p = (3, true, 1, false, fv));
 
 macro_rules! ibig_div_rem {
-    ($($name:ident = ($ca:expr, $cb:expr)),* $(,)?) => {$(
+    ($($name:ident = ($ca:expr, $na:expr, $cb:expr, $nb:expr)),* $(,)?) => {$(
         harness!($name, 8, {
-            fn body(ca: usize, na: bool, cb: usize, nb: bool) {
-                let (wa, wb) = (pal3(), pal3());
-                assume(cb > 1 || wb[0] != 0);
-                let q = ob!(obs_i, &ibig_w(ca, na, &wa) / &ibig_w(cb, nb, &wb));
-                let r = ob!(obs_i, &ibig_w(ca, na, &wa) % &ibig_w(cb, nb, &wb));
-                let k: u8 = any();
-                let (q1, r1) = match k {
-                    0 => (&ibig_w(ca, na, &wa)).div_rem(&ibig_w(cb, nb, &wb)),
-                    1 => ibig_w(ca, na, &wa).div_rem(ibig_w(cb, nb, &wb)),
-                    2 => ibig_w(ca, na, &wa).div_rem(&ibig_w(cb, nb, &wb)),
-                    3 => (&ibig_w(ca, na, &wa)).div_rem(ibig_w(cb, nb, &wb)),
-                    _ => {
-                        let mut x = ibig_w(ca, na, &wa);
-                        let r = x.div_rem_assign(&ibig_w(cb, nb, &wb));
-                        (x, r)
-                    }
-                };
-                assert!(same(ob!(obs_i, q1), q));
-                assert!(same(ob!(obs_i, r1), r));
-            }
-            with_signs!(body, $ca, $cb);
+            let (wa, wb) = (pal3(), pal3());
+            assume($cb > 1 || wb[0] != 0);
+            assume(!($na && $ca == 1 && wa[0] == 0));
+            let q = ob!(obs_i, &ibig_w($ca, $na, &wa) / &ibig_w($cb, $nb, &wb));
+            let r = ob!(obs_i, &ibig_w($ca, $na, &wa) % &ibig_w($cb, $nb, &wb));
+            let k: u8 = any();
+            let (q1, r1) = match k {
+                0 => (&ibig_w($ca, $na, &wa)).div_rem(&ibig_w($cb, $nb, &wb)),
+                1 => ibig_w($ca, $na, &wa).div_rem(ibig_w($cb, $nb, &wb)),
+                2 => ibig_w($ca, $na, &wa).div_rem(&ibig_w($cb, $nb, &wb)),
+                3 => (&ibig_w($ca, $na, &wa)).div_rem(ibig_w($cb, $nb, &wb)),
+                _ => {
+                    let mut x = ibig_w($ca, $na, &wa);
+                    let r = x.div_rem_assign(&ibig_w($cb, $nb, &wb));
+                    (x, r)
+                }
+            };
+            assert!(same(ob!(obs_i, q1), q));
+            assert!(same(ob!(obs_i, r1), r));
         });
     )*};
 }
-ibig_div_rem!(vk_int_forms_ibig_div_rem_2_1 = (2, 1), vk_int_forms_ibig_div_rem_3_2 = (3, 2));
+ibig_div_rem!(vk_int_forms_ibig_div_rem_2n_1p = (2, true, 1, false), vk_int_forms_ibig_div_rem_2p_2n = (2, false, 2, true));
 
 macro_rules! ibig_shift {
-    ($op:tt, $opa:tt; $($name:ident = $ca:expr),* $(,)?) => {$(
+    ($op:tt, $opa:tt; $($name:ident = ($ca:expr, $na:expr)),* $(,)?) => {$(
         harness!($name, 8, {
-            fn body(ca: usize, na: bool) {
+            fn body(ca: usize, n: usize) {
                 let wa = full3();
-                let n: usize = any();
-                assume(n < 130);
-                let r = ob!(obs_i, &ibig_w(ca, na, &wa) $op n);
-                assert!(same(ob!(obs_i, ibig_w(ca, na, &wa) $op n), r));
-                assert!(same(ob!(obs_i, ibig_w(ca, na, &wa) $op &n), r));
-                assert!(same(ob!(obs_i, &ibig_w(ca, na, &wa) $op &n), r));
-                let mut x = ibig_w(ca, na, &wa);
+                assume(!($na && ca == 1 && wa[0] == 0));
+                let r = ob!(obs_i, &ibig_w(ca, $na, &wa) $op n);
+                assert!(same(ob!(obs_i, ibig_w(ca, $na, &wa) $op n), r));
+                assert!(same(ob!(obs_i, ibig_w(ca, $na, &wa) $op &n), r));
+                assert!(same(ob!(obs_i, &ibig_w(ca, $na, &wa) $op &n), r));
+                let mut x = ibig_w(ca, $na, &wa);
                 x $opa n;
                 assert!(same(ob!(obs_i, x), r));
-                let mut y = ibig_w(ca, na, &wa);
+                let mut y = ibig_w(ca, $na, &wa);
                 y $opa &n;
                 assert!(same(ob!(obs_i, y), r));
             }
-            with_sign!(body, $ca);
+            shift_amounts!(body, $ca);
         });
     )*};
 }
-ibig_shift!(<<, <<=; vk_int_forms_ibig_shl_1 = 1, vk_int_forms_ibig_shl_3 = 3);
-ibig_shift!(>>, >>=; vk_int_forms_ibig_shr_1 = 1, vk_int_forms_ibig_shr_2 = 2, vk_int_forms_ibig_shr_3 = 3);
+ibig_shift!(<<, <<=; vk_int_forms_ibig_shl_1n = (1, true), vk_int_forms_ibig_shl_3n = (3, true));
+ibig_shift!(>>, >>=; vk_int_forms_ibig_shr_1n = (1, true), vk_int_forms_ibig_shr_2n = (2, true), vk_int_forms_ibig_shr_3n = (3, true));
 
 // IBig with a (signed / unsigned) primitive operand == the IBig form
 macro_rules! ibig_prim {
-    ($t:ty, $op:tt, $opa:tt, $words:ident, $pre:expr; $($name:ident = $ca:expr),* $(,)?) => {$(
+    ($t:ty, $op:tt, $opa:tt, $words:ident, $pre:expr; $($name:ident = ($ca:expr, $na:expr)),* $(,)?) => {$(
         harness!($name, 8, {
-            fn body(ca: usize, na: bool) {
-                let wa = $words();
-                let p: $t = any();
-                let pre: fn($t) -> bool = $pre;
-                assume(pre(p));
-                let r = ob!(obs_i, &ibig_w(ca, na, &wa) $op &IBig::from(p));
-                assert!(same(ob!(obs_i, ibig_w(ca, na, &wa) $op p), r));
-                assert!(same(ob!(obs_i, &ibig_w(ca, na, &wa) $op p), r));
-                assert!(same(ob!(obs_i, &ibig_w(ca, na, &wa) $op &p), r));
-                let mut x = ibig_w(ca, na, &wa);
-                x $opa p;
-                assert!(same(ob!(obs_i, x), r));
+            let wa = $words();
+            let p: $t = any();
+            let pre: fn($t) -> bool = $pre;
+            assume(pre(p));
+            assume(!($na && $ca == 1 && wa[0] == 0));
+            let r = ob!(obs_i, &ibig_w($ca, $na, &wa) $op &IBig::from(p));
+            match any::<u8>() {
+                0 => assert!(same(ob!(obs_i, ibig_w($ca, $na, &wa) $op p), r)),
+                1 => assert!(same(ob!(obs_i, &ibig_w($ca, $na, &wa) $op p), r)),
+                2 => assert!(same(ob!(obs_i, &ibig_w($ca, $na, &wa) $op &p), r)),
+                _ => {
+                    let mut x = ibig_w($ca, $na, &wa);
+                    x $opa p;
+                    assert!(same(ob!(obs_i, x), r));
+                }
             }
-            with_sign!(body, $ca);
         });
     )*};
 }
-ibig_prim!(i8, +, +=, full3, |_| true; vk_int_forms_ibig_add_i8_1 = 1, vk_int_forms_ibig_add_i8_3 = 3);
-ibig_prim!(u8, -, -=, full3, |_| true; vk_int_forms_ibig_sub_u8_1 = 1);
-ibig_prim!(i64, *, *=, pal3, |_| true; vk_int_forms_ibig_mul_i64_1 = 1);
-ibig_prim!(i8, /, /=, pal3, |p| p != 0; vk_int_forms_ibig_div_i8_2 = 2);
+ibig_prim!(i8, +, +=, full3, |_| true; vk_int_forms_ibig_add_i8_1n = (1, true), vk_int_forms_ibig_add_i8_3p = (3, false));
+ibig_prim!(u8, -, -=, full3, |_| true; vk_int_forms_ibig_sub_u8_1p = (1, false));
+ibig_prim!(i64, *, *=, pal3, |_| true; vk_int_forms_ibig_mul_i64_1n = (1, true));
+ibig_prim!(i8, /, /=, pal3, |p| p != 0; vk_int_forms_ibig_div_i8_2n = (2, true));
 
 // `IBig % primitive` returns the primitive.  Signed primitive: any dividend; unsigned primitive: the main harness
 // stays on non-negative dividends (the other region is vk_int_forms_finding_ibig_rem_u8_negative).
-harness!(vk_int_forms_ibig_rem_i8, 8, {
-    fn body(ca: usize, na: bool) {
-        let wa = pal3();
-        let p: i8 = any();
-        assume(p != 0);
-        let r = ob!(obs_i, &ibig_w(ca, na, &wa) % &IBig::from(p));
-        let r1: i8 = ibig_w(ca, na, &wa) % p;
-        let r2: i8 = &ibig_w(ca, na, &wa) % &p;
-        assert!(r1 == r2 && same(ob!(obs_i, IBig::from(r1)), r));
-        let (_q3, r3) = ibig_w(ca, na, &wa).div_rem(p);
-        assert!(r3 == r1);
+harness!(vk_int_forms_ibig_rem_i8_2n, 8, {
+    let wa = pal3();
+    let p: i8 = any();
+    assume(p != 0);
+    let r1: i8 = ibig_w(2, true, &wa) % p;
+    match any::<u8>() {
+        0 => {
+            let r = ob!(obs_i, &ibig_w(2, true, &wa) % &IBig::from(p));
+            assert!(same(ob!(obs_i, IBig::from(r1)), r));
+        }
+        1 => {
+            let r2: i8 = &ibig_w(2, true, &wa) % &p;
+            assert!(r1 == r2);
+        }
+        _ => {
+            let (_q3, r3) = ibig_w(2, true, &wa).div_rem(p);
+            assert!(r3 == r1);
+        }
     }
-    with_sign!(body, 2);
 });
 harness!(vk_int_forms_ibig_rem_u8_nonneg, 8, {
     let wa = pal3();
     let p: u8 = any();
     assume(p != 0);
-    let r = ob!(obs_i, &ibig_w(2, false, &wa) % &IBig::from(p));
     let r1: u8 = ibig_w(2, false, &wa) % p;
-    let r2: u8 = &ibig_w(2, false, &wa) % &p;
-    assert!(r1 == r2 && same(ob!(obs_i, IBig::from(r1)), r));
-    let (_q3, r3) = ibig_w(2, false, &wa).div_rem(p);
-    assert!(r3 == r1);
+    match any::<u8>() {
+        0 => {
+            let r = ob!(obs_i, &ibig_w(2, false, &wa) % &IBig::from(p));
+            assert!(same(ob!(obs_i, IBig::from(r1)), r));
+        }
+        1 => {
+            let r2: u8 = &ibig_w(2, false, &wa) % &p;
+            assert!(r1 == r2);
+        }
+        _ => {
+            let (_q3, r3) = ibig_w(2, false, &wa).div_rem(p);
+            assert!(r3 == r1);
+        }
+    }
 });
 // FINDING: "IBig % u8 does not panic for a non-zero divisor" fails for negative dividends whose remainder is
 // non-zero: the macro converts the (negative) IBig remainder with `.try_into().unwrap()`.
 harness!(vk_int_forms_finding_ibig_rem_u8_negative, 8, {
     let wa = pal3();
     let p: u8 = any();
-    assume(p != 0);
+    assume(p != 0 && wa[0] != 0);
     let _r: u8 = ibig_w(1, true, &wa) % p;
 });
